@@ -837,3 +837,99 @@ func vfContains16(l []uint16, v uint16) bool {
 }
 
 var _ = bytes.Equal
+
+// ---- minimal reference ServerHello parser ----
+
+type vfServerHello struct {
+	Version     uint16
+	Random      []byte
+	SessionID   []byte
+	Suite       uint16
+	Compression uint8
+	Exts        []vfExt
+	IsHRR       bool
+	OK          bool
+}
+
+var vfHRRRandom = []byte{0xCF, 0x21, 0xAD, 0x74, 0xE5, 0x9A, 0x61, 0x11, 0xBE, 0x1D, 0x8C, 0x02, 0x1E, 0x65, 0xB8, 0x91,
+	0xC2, 0xA2, 0x11, 0x16, 0x7A, 0xBB, 0x8C, 0x5E, 0x07, 0x9E, 0x09, 0xE2, 0xC8, 0xA8, 0x33, 0x9C}
+
+func vfParseServerHello(msg []byte) *vfServerHello {
+	sh := &vfServerHello{}
+	if len(msg) < 4 || msg[0] != 2 {
+		return sh
+	}
+	r := &vfRd{b: msg[4:]}
+	sh.Version = r.u16()
+	sh.Random = append([]byte(nil), r.take(32)...)
+	sh.SessionID = append([]byte(nil), r.vec8()...)
+	sh.Suite = r.u16()
+	sh.Compression = r.u8()
+	if r.err {
+		return sh
+	}
+	sh.IsHRR = bytes.Equal(sh.Random, vfHRRRandom)
+	if !r.empty() {
+		er := &vfRd{b: r.vec16()}
+		for !er.empty() {
+			t := er.u16()
+			b := er.vec16()
+			if er.err {
+				return sh
+			}
+			sh.Exts = append(sh.Exts, vfExt{t, append([]byte(nil), b...)})
+		}
+	}
+	sh.OK = true
+	return sh
+}
+
+func (sh *vfServerHello) Ext(t uint16) *vfExt {
+	for i := range sh.Exts {
+		if sh.Exts[i].Type == t {
+			return &sh.Exts[i]
+		}
+	}
+	return nil
+}
+
+// SelectedVersion: supported_versions if present else legacy version.
+func (sh *vfServerHello) SelectedVersion() uint16 {
+	if e := sh.Ext(43); e != nil && len(e.Body) == 2 {
+		return binary.BigEndian.Uint16(e.Body)
+	}
+	return sh.Version
+}
+
+// KeyShareGroup returns the group of the key_share extension (server share, or selected_group in a HRR).
+func (sh *vfServerHello) KeyShareGroup() uint16 {
+	if e := sh.Ext(51); e != nil && len(e.Body) >= 2 {
+		return binary.BigEndian.Uint16(e.Body)
+	}
+	return 0
+}
+
+// vfServerHellosOnWire returns the plaintext ServerHello/HRR messages at the start of the server's stream.
+func vfServerHellosOnWire(stream []byte) []*vfServerHello {
+	recs, _ := vfSplitRecords(stream)
+	var hs []byte
+	for _, r := range recs {
+		if r.Type == 22 {
+			hs = append(hs, r.Body...)
+		} else if r.Type == 20 {
+			continue
+		} else {
+			break
+		}
+	}
+	var out []*vfServerHello
+	for len(hs) >= 4 {
+		n := int(hs[1])<<16 | int(hs[2])<<8 | int(hs[3])
+		if len(hs) < 4+n || hs[0] != 2 {
+			break
+		}
+		out = append(out, vfParseServerHello(hs[:4+n]))
+		hs = hs[4+n:]
+	}
+	return out
+}
